@@ -146,7 +146,7 @@ def crafted():
     # [41] Attribute, WFC unique att spec
     ill('attr', '<a x="1" x="2"/>', '<a x="1" y="2" x="3"/>', "<a x='1' x='1'/>", '<a xmlns="u" xmlns="u"/>', '<a xmlns:p="u" xmlns:p="v"/>', '<a><b c="" c=""/></a>',
         '<a x/>', '<a x=/>', '<a x=1/>', '<a x="1"y="2"/>', '<a x="1/>', "<a x='1\"/>", '<a x=="1"/>', '<a ="1"/>', '<a x="1" "2"/>')
-    ok('attr', '<a x="1" y="2"/>', '<a x="1" X="2"/>', "<a x = '1'\ty\n=\r\"2\"/>", '<a x=""/>', '<a x="\'"/>', "<a x='\"'/>", '<a x=">"/>', '<a x="]]>"/>', '<a x="&#9;&#10;&#13;\t"/>')
+    ok('attr', '<a x="1" y="2"/>', '<a x="1" X="2"/>', '<a xmlns:p="u" p:x="1" p:X="2"/>', '<a xmlns:p="u" xmlns:P="u" p:x="1" P:x="2" x="3"/>'.replace(' P:x="2"', ''), "<a x = '1'\ty\n=\r\"2\"/>", '<a x=""/>', '<a x="\'"/>', "<a x='\"'/>", '<a x=">"/>', '<a x="]]>"/>', '<a x="&#9;&#10;&#13;\t"/>')
     # [10] AttValue, WFC no < in attribute values
     ill('attvalue', '<a x="<"/>', '<a x="a<b"/>', '<a x="&"/>', '<a x="&;"/>', '<a x="&#;"/>', '<a x="&#x;"/>', '<a x="&#xg;"/>', '<a x="&# 1;"/>', '<a x="& lt;"/>', '<a x="&lt"/>',
         '<!DOCTYPE a [<!ENTITY e "<">]><a x="&e;"/>', '<!DOCTYPE a [<!ENTITY e "&#60;">]><a x="&e;"/>', '<!DOCTYPE a [<!ENTITY e "&#x3c;">]><a x="&e;"/>',
